@@ -271,6 +271,14 @@ func c20(r *core.Run) {
 		sig, err := signer.Sign(ctx, ver, styp.Digest{SHA256: digest[:]}, opts)
 		r.Eval(r.Fingerprint()+fmt.Sprint(optKind, k.SignFault, err == nil), k.SignFault != 0 || optKind >= 3 || fired())
 		r.Eventf("sign opts=%d fault=%d -> returned=%v", optKind, k.SignFault, err == nil)
+		if err != nil && r.Bool("retry-sign?") {
+			// the caller tries again: same signer, same key version, same digest; the service has
+			// not recovered. What comes back is judged like any answer (and must come from asking).
+			k.LastSign = nil
+			sig, err = signer.Sign(ctx, ver, styp.Digest{SHA256: digest[:]}, opts)
+			r.Eventf("sign again -> returned=%v", err == nil)
+			r.Probe("sign-retried")
+		}
 		if err == nil {
 			r.Probe("signature-returned")
 			if !pssSha256 {
